@@ -11,6 +11,8 @@
 
 mod alloc;
 mod codec;
+mod ep_families;
+mod epsim;
 mod families;
 mod hcsim;
 mod hostile;
@@ -237,7 +239,7 @@ fn run_scenario(family: &str, seed: u64, idx: u64, params: &Params) -> ScnOut {
             rate14::run_batch(scn_seed, params, &mut out);
         }
         _ => {
-            if !families::run_family(family, scn_seed, idx, params, &mut out) {
+            if !families::run_family(family, scn_seed, idx, params, &mut out) && !ep_families::run_family(family, scn_seed, idx, params, &mut out) {
                 out.inconclusive.push(format!("unknown family {}", family));
             }
         }
